@@ -158,8 +158,24 @@ def into_with_faces_has_both_some(ctx, F, b):
     return True
 
 
+def with_faces_impl(F):
+    """ConvexCell::with_faces, or the unexported helper it delegates the conversion to (`with_faces` = check + `with_faces_unchecked`): the body
+    that calls the private transition."""
+    b = F.body_by_suffix('ConvexCell::with_faces')
+    for _ in range(3):
+        cs = [callee_name(t) for _bl, t in calls(b)]
+        if any(strip_generics(c or '').endswith('ConvexCell::transition') for c in cs):
+            return b
+        nxt = [F.by_path[c][0] for c in cs if c in F.by_path and 'ConvexCell' in c and not F.by_path[c][0].get('exported') and (F.by_path[c][0].get('sig') or '').replace(' ', '').endswith('->voronoi::convex_cell::ConvexCell<voronoi::convex_cell::WithFaces>')]
+        if len(nxt) != 1:
+            return b
+        b = nxt[0]
+    return b
+
+
 def r2(ctx, F, rule, sfx):
     writers = {}
+    wf_only = {}
     for b in F.bodies:
         if 'convex_cell_alternative' in b['path']:
             continue
@@ -172,14 +188,19 @@ def r2(ctx, F, rule, sfx):
                 for e in s['place']['p']:
                     if e['k'] == 'field' and e.get('n') in FIELDS and e.get('adt') == CC:
                         writers.setdefault(strip_generics(b['path']), set()).add(e['n'])
+                        lty = b['locals'][s['place']['l']]['ty'].replace(' ', '')
+                        wf_only.setdefault(strip_generics(b['path']), []).append(lty.lstrip('&').replace('mut', '', 1) .endswith('ConvexCell<voronoi::convex_cell::WithoutFaces>'))
                 rv = s['rv']
                 if rv['k'] in ('ref', 'rawptr') and (rv.get('mut') or rv['k'] == 'rawptr'):
                     for e in rv['place']['p']:
                         if e['k'] == 'field' and e.get('n') in FIELDS and e.get('adt') == CC:
                             writers.setdefault(strip_generics(b['path']), set()).add(e['n'] + ' (&mut)')
-    allowed = {'voronoi::convex_cell::ConvexCell::with_faces', 'voronoi::convex_cell::ConvexCell::discard_faces'}
+    allowed = {'voronoi::convex_cell::ConvexCell::with_faces', 'voronoi::convex_cell::ConvexCell::discard_faces', strip_generics(with_faces_impl(F)['path'])}
     for p, fs in sorted(writers.items()):
-        ctx.check(rule, 'writer:%s%s' % (p, sfx), p in allowed, 'assigns %s' % sorted(fs), 'only with_faces and discard_faces write the option fields', where(F.by_path[[x for x in F.by_path if strip_generics(x) == p][0]][0]), key_extra='writer:' + p)
+        # a write through a place whose static type is ConvexCell<WithoutFaces> cannot break "a cell typed WithFaces has both fields" — only the
+        # transition can turn it into a WithFaces value (R1 checks both assignments there); mutable borrows are never accepted outside the two methods
+        typed_without = all(wf_only.get(p, [False])) and not any('(&mut)' in f for f in fs)
+        ctx.check(rule, 'writer:%s%s' % (p, sfx), p in allowed or typed_without, 'assigns %s' % sorted(fs), 'only with_faces (or its unexported conversion helper) and discard_faces write the option fields of a cell that is or becomes WithFaces', where(F.by_path[[x for x in F.by_path if strip_generics(x) == p][0]][0]), key_extra='writer:' + p)
     ctx.floor(rule, 'writers of the option fields' + sfx, len(writers), 2)
     # discard_faces writes None; with_faces writes Some (R1 checks the latter at the transition)
     db = F.body_by_suffix('ConvexCell::discard_faces')
@@ -293,7 +314,30 @@ def r5(ctx, F, rule, sfx):
     wf_txt = 'call:' + strip_generics(wfb['path']) + '('
     runs = [r for r in ip.closure_runs if any(e.callee == wfb['path'] for e in r['events']) or wf_txt in repr(r['result'])]      # closure or `map(ConvexCell::with_faces)`
     ok = len(runs) == 1 and stream_shape(runs[0]['stream']) == ('elem', 'vi.cells')
-    ctx.check(rule, 'integrator-with_faces-maps-every-cell' + sfx, ok, '%d mapping closure(s)' % len(runs), 'cells.map(|c| c.map(ConvexCell::with_faces))', where(ib), key_extra='vi-with-faces')
+    how = 'cells.map(|c| c.map(ConvexCell::with_faces))'
+    if not runs:
+        # the integrator checks the dimensionality itself, once and unconditionally, and converts every cell through the unexported helper
+        impl = with_faces_impl(F)
+        if impl is not wfb:
+            verdicts = {}
+            for dim in ('OneD', 'TwoD', 'ThreeD'):
+                ip2 = I.Interp(F, no_inline=[impl['path']])
+                vi = I.St('voronoi::VoronoiIntegrator', 'VoronoiIntegrator', {'dimensionality': I.St('voronoi::Dimensionality', dim, {})}, I.Sym(nf.sym_atom('vi'), 'voronoi::VoronoiIntegrator<WithoutFaces>'))
+                try:
+                    ip2.call_body(ib, [vi])
+                    verdicts[dim] = 'returns'
+                except I.Diverge:
+                    verdicts[dim] = 'diverges'
+                ctx.evaluations += ip2.evaluations
+                conv = [r for r in ip2.closure_runs if any(e.callee == impl['path'] for e in r['events'])]
+                if verdicts[dim] == 'diverges' and conv:
+                    verdicts[dim] = 'converts-then-diverges'
+                if dim == 'ThreeD':
+                    runs = conv
+            # the cells of an integrator carry the integrator's dimensionality (C13.R1: both are the `dimensionality` argument of build)
+            ok = verdicts == {'OneD': 'diverges', 'TwoD': 'diverges', 'ThreeD': 'returns'} and len(runs) == 1 and stream_shape(runs[0]['stream']) == ('elem', 'vi.cells')
+            how = 'assert 3D, then cells.map(|c| c.map(<conversion helper>)): %s' % verdicts
+    ctx.check(rule, 'integrator-with_faces-maps-every-cell' + sfx, ok, '%d mapping closure(s); %s' % (len(runs), how), 'cells.map(|c| c.map(ConvexCell::with_faces)), or an unconditional 3D assertion before mapping the unexported conversion helper', where(ib), key_extra='vi-with-faces')
 
 
 def r6(ctx, F, rule, sfx):
@@ -349,7 +393,7 @@ def r6(ctx, F, rule, sfx):
 
 
 def r7(ctx, F, rule, sfx):
-    wfb = F.body_by_suffix('ConvexCell::with_faces')
+    wfb = with_faces_impl(F)
     srt = [x['path'] for x in F.bodies if x['path'].endswith('::sort_face_vertices')]
     ip = I.Interp(F, no_inline=srt + [x['path'] for x in F.bodies if x['path'].endswith('::transition')])
     cell = I.St(CC, 'ConvexCell', {'dimensionality': I.St('voronoi::Dimensionality', 'ThreeD', {})}, I.Sym(nf.sym_atom('cell'), CC + '<WithoutFaces>'))
